@@ -33,3 +33,18 @@ chk('C11', 'model_checking',
     'Reference netlist model (mc/refmodels/netlist.py) trusted; sequences bounded by depth and live wires; catalogue at widths 2-3.',
     'explicit-state search over operation sequences with replay on the implementation; exhaustive single-fault enumeration',
     'DESIGN.md 4/C11')
+chk('C12', 'exploration',
+    'Exhaustive enumeration of all 2^16 half-precision patterns, of all two\'s-complement widths 1..10 x all values, of every FixedPoint format up to 7 bits x all raw operand pairs; for single/double precision and FPNum arithmetic exhaustive enumeration of stated alphabets (every exponent field x both signs x boundary mantissas; all ordered pairs of a 300/600-value mini-float alphabet), each compared with struct / fractions.Fraction / integer arithmetic.',
+    'struct (platform IEEE-754) and Fraction are the oracle; the 2^32/2^64 spaces are covered by alphabets only (evidence says exhaustive=false); NaN payloads excepted as the statement says.',
+    'bounded exhaustive input enumeration against struct/Fraction references',
+    'DESIGN.md 4/C12')
+chk('C14', 'exploration',
+    'Every signed fixed-point format up to 6 bits (plus the 8-bit (1,3,4)) x every operand/result format combination the constructors accept x all operand encoding pairs for FixedPointAdd/Sub/Mult/Sign/Comparator, compared with Fraction arithmetic; comparator only where the difference is representable; FixedPoint helper cross-checked on the same pairs.',
+    'Fraction reference trusted; formats above the bound not covered; "rescaled by truncation" accepted as floor or toward-zero consistently per configuration.',
+    'bounded exhaustive input/configuration enumeration against exact rational arithmetic',
+    'DESIGN.md 4/C14')
+chk('C15', 'exploration',
+    'All value sequences up to length L on a 1-bit and a wide watched wire (poked and register-driven), all clk(n) splittings, clear()/clk(0) at every position, 19 watch-list shapes (duplicates, port aliases, mixed order); the recorder\'s samples and an independent decoder of the WaveDrom rendering are compared with the harness\'s own per-cycle log at every node of the history tree; sampled nodes are replayed on fresh systems.',
+    'Bounded history length (recorder state grows without bound, so no closure); WaveJSON decoder in mc/refmodels/wave.py trusted.',
+    'bounded exhaustive history enumeration (prefix tree with snapshot/restore) against a reference log and decoder',
+    'DESIGN.md 4/C15')
